@@ -7,7 +7,7 @@
 //! Every record is rendered as `<tid>:<record>@<virtual-time>`; the final observation (S= L= O=) follows.
 use crate::core::*;
 use crate::sexp::Sexp;
-use crate::value::reset_live;
+use crate::value::{live, reset_live, ITEM, OP, USER};
 use crate::{Outcome, Scenario};
 use another_rxrust::verif_facade as facade;
 use another_rxrust::verif_std::thread as vthread;
@@ -145,6 +145,9 @@ impl Scenario for Pipe {
       facade::set_logging(false);
       drop(sh);
       facade::set_logging(true);
+      // C17: every subscription has ended and every handle of the harness is gone: what is still alive is owned by
+      // the library (token classes: user callbacks, operator closures, items)
+      facade::log("h", 0, "", format!("TOK:u={},o={},i={}@{}", live(USER), live(OP), live(ITEM), facade::now()));
     })
   }
 
